@@ -1,7 +1,7 @@
 CONSTANTS
   DEVS = {}
   NCalls = 2
-  KindSet = {"meth", "methmut", "get", "set", "intro"}
+  KindSet = {"meth", "methmut", "get", "set", "intro", "ping"}
   BodySet <- Bodies_c30
   SpawnSet = {TRUE, FALSE}
 INIT MCInit
